@@ -189,9 +189,139 @@ def r3(ctx):
                   f"the model is trained on `{sorted(vals)}` instead of the observed subset of the loaded screen")
 
 
+def update_spec(ctx):
+    """what one `_update(y, cl, dd1, dd2)` of the wrapped sampler does, read from its body: ({list attr: param}, {index attr: key param},
+    counter expression); None if `_update` has another shape"""
+    f = ctx.fn("models.sparse_combo.LegacySparseDrugComboImpl._update")
+    params = [p for p in f.params if p != "self"]
+    lists, idxs, nname = {}, {}, None
+    for st in f.node.body:
+        if isinstance(st, ast.Expr) and isinstance(st.value, ast.Constant):
+            continue
+        if isinstance(st, ast.Assign) and len(st.targets) == 1 and isinstance(st.targets[0], ast.Name) and U(st.value).replace(" ", "") in ("self.n_obs()", "len(self.y)") \
+                and nname is None and not lists and not idxs:
+            nname = st.targets[0].id
+            continue
+        c = st.value if isinstance(st, ast.Expr) and isinstance(st.value, ast.Call) else None
+        if c is not None and attr_tail(c) == "append" and len(c.args) == 1 and isinstance(c.args[0], ast.Name):
+            tgt = c.func.value
+            if isinstance(tgt, ast.Attribute) and U(tgt.value) == "self" and c.args[0].id in params:
+                lists[tgt.attr] = c.args[0].id
+                continue
+            if isinstance(tgt, ast.Subscript) and isinstance(tgt.value, ast.Attribute) and U(tgt.value.value) == "self" and isinstance(tgt.slice, ast.Name) \
+                    and tgt.slice.id in params and c.args[0].id == nname:
+                idxs[tgt.value.attr] = tgt.slice.id
+                continue
+        return None
+    if nname is None or sorted(lists.values()) != sorted(params) or not idxs:
+        return None
+    return lists, idxs
+
+
+def bulk_ingestion(ctx, f):
+    """the bulk spelling of `for each row: impl._update(..)`:
+           B = impl.n_obs()                                   (before anything is appended)
+           impl.<list>.extend(COL_p)   for every list `_update` appends its parameter p to
+           for n, keys.. in zip(range(B, B + len(COL)), COLS..) | enumerate(zip(COLS..), start=B):   impl.<index>[key].append(n)
+       returns (feed {param: column expression}, problems, first extend call) or None when f contains no such form.
+       A recognised bulk form whose row numbers do not start at the sampler's current row count is reported (later batches would be
+       indexed onto the rows of the first batch)."""
+    spec = update_spec(ctx)
+    if spec is None:
+        return None
+    lists, idxs = spec
+    exts = {}
+    recv = None
+    for c in calls(f.node):
+        if attr_tail(c) == "extend" and len(c.args) == 1 and isinstance(c.func.value, ast.Attribute) and c.func.value.attr in lists:
+            r = U(c.func.value.value)
+            if recv is None:
+                recv = r
+            if r != recv or c.func.value.attr in exts:
+                return None
+            exts[c.func.value.attr] = c
+    if not exts:
+        return None
+    problems = []
+    if set(exts) != set(lists):
+        problems.append(f"the bulk ingestion extends {sorted(exts)} but one `_update` appends to {sorted(lists)}")
+    feed = {lists[a]: c.args[0] for a, c in exts.items()}
+    env = single_defs(f.node)
+    loops = [lp for lp in walk_own(f.node) if isinstance(lp, ast.For) and any(attr_tail(c) == "append" and isinstance(c.func.value, ast.Subscript)
+             and isinstance(c.func.value.value, ast.Attribute) and c.func.value.value.attr in idxs and U(c.func.value.value.value) == recv for c in calls(lp))]
+    if len(loops) != 1:
+        raise AnalysisError(f"{f.site()}: bulk ingestion into `{recv}` without exactly one loop filling its row-index lists ({len(loops)} found)")
+    lp = loops[0]
+    it = inline(lp.iter, {k: v for k, v in env.items() if isinstance(v, ast.Call) and U(v.func) in ("range", "zip", "enumerate")})
+    base = None
+    cols = None
+    tvars = None
+    if isinstance(it, ast.Call) and U(it.func) == "zip" and it.args and isinstance(it.args[0], ast.Call) and U(it.args[0].func) == "range" \
+            and isinstance(lp.target, ast.Tuple) and len(lp.target.elts) == len(it.args):
+        rg = it.args[0]
+        cols = it.args[1:]
+        tvars = [U(t) for t in lp.target.elts]
+        if len(rg.args) == 2:
+            base = rg.args[0]
+            stop = rg.args[1]
+            lens = {f"{U(base)}+len({U(c)})".replace(" ", "") for c in cols} | {f"{U(base)}+len({U(v)})".replace(" ", "") for v in feed.values()}
+            if U(stop).replace(" ", "") not in lens:
+                problems.append(f"the row numbers run to `{U(stop)}`, not to base + number of new rows")
+        elif len(rg.args) == 1:
+            base = ast.Constant(value=0)
+    elif isinstance(it, ast.Call) and U(it.func) == "enumerate" and it.args and isinstance(it.args[0], ast.Call) and U(it.args[0].func) == "zip" \
+            and isinstance(lp.target, ast.Tuple) and len(lp.target.elts) == 2 and isinstance(lp.target.elts[1], ast.Tuple):
+        cols = it.args[0].args
+        tvars = [U(lp.target.elts[0])] + [U(t) for t in lp.target.elts[1].elts]
+        base = it.args[1] if len(it.args) > 1 else kwargs(it).get("start", ast.Constant(value=0))
+    if cols is None or len(tvars) != len(cols) + 1:
+        raise AnalysisError(f"{f.site()}: the loop filling the row-index lists of `{recv}` iterates `{U(lp.iter)[:80]}`, not zip(range(base, ..), columns) / enumerate(zip(columns), start=base)")
+    nvar, kvars = tvars[0], tvars[1:]
+    col_of = dict(zip(kvars, [U(c) for c in cols]))
+    seen = set()
+    for st in lp.body:
+        c = st.value if isinstance(st, ast.Expr) and isinstance(st.value, ast.Call) else None
+        if not (c is not None and attr_tail(c) == "append" and isinstance(c.func.value, ast.Subscript) and isinstance(c.func.value.value, ast.Attribute)
+                and U(c.func.value.value.value) == recv and c.func.value.value.attr in idxs and len(c.args) == 1):
+            raise AnalysisError(f"{f.site()}: statement `{U(st)[:60]}` in the index loop of the bulk ingestion is not an append to a row-index list")
+        a = c.func.value.value.attr
+        key = U(c.func.value.slice)
+        want_col = U(feed.get(idxs[a])) if idxs[a] in feed else None
+        if U(c.args[0]) != nvar:
+            problems.append(f"`{a}` records `{U(c.args[0])}`, not the row number `{nvar}`")
+        if col_of.get(key) != want_col:
+            problems.append(f"`{a}` is keyed by `{key}` (from `{col_of.get(key)}`), not by the column `{want_col}` appended as `{idxs[a]}`")
+        seen.add(a)
+    if seen != set(idxs):
+        problems.append(f"the index loop fills {sorted(seen)}, one `_update` fills {sorted(idxs)}")
+    # the numbering starts at the sampler's row count before the new rows are appended
+    ok_base = False
+    if isinstance(base, ast.Name) and base.id in env:
+        bd = env[base.id]
+        bdef = [n for n in walk_own(f.node) if isinstance(n, ast.Assign) and n.value is bd]
+        first_ext = min(c.lineno for c in exts.values())
+        lname = [a for a, p_ in lists.items()][0]
+        ok_base = U(bd).replace(" ", "") in (f"{recv}.n_obs()",) + tuple(f"len({recv}.{a})" for a in lists) and bdef and bdef[0].lineno < first_ext
+    if not ok_base:
+        problems.append(f"the new rows are numbered from `{U(base) if base is not None else None}`, not from the sampler's row count before the batch "
+                        f"(`{recv}.n_obs()` taken before the extends): a later batch is indexed onto the rows of an earlier one")
+    return feed, problems, min(exts.values(), key=lambda c: c.lineno)
+
+
 def ingestion_feed(ctx, f):
     from engine import rowstream as RS
     env = single_defs(f.node)
+    if not any(attr_tail(c) == "_update" for c in calls(f.node)):
+        bulk = bulk_ingestion(ctx, f)
+        if bulk is not None:
+            cols, problems, call = bulk
+            ctx._bulk_problems = getattr(ctx, "_bulk_problems", {})
+            ctx._bulk_problems[f.qname] = problems
+            try:
+                feed = {k: RS.array_field(v, env) for k, v in cols.items()}
+            except RS.Undecided as e:
+                raise AnalysisError(f"{f.site()}: {e} - the columns fed to the sampler in bulk cannot be traced to the screen's columns")
+            return feed, [], [], None, call
     try:
         return RS.sink_feed(f.node, env, "_update")
     except RS.Undecided as e:
@@ -253,6 +383,7 @@ def r4(ctx):
         extra = [(fl, pol) for fl, pol in filters if (fl, pol) not in mask_filters]
         if extra:
             problems.append(f"rows are additionally filtered by {[repr(fl) for fl, _ in extra]}")
+        problems += getattr(ctx, "_bulk_problems", {}).get(f.qname, [])
         ctx.check("R4", f"{f.site()}::ingestion", not problems,
                   f"one _update per observed row; y/cl/dd1/dd2 from observations/sample_ids/treatment_ids[:,0]/[:,1] under row selection {sorted(map(str, sels))}",
                   "; ".join(problems))
@@ -311,7 +442,8 @@ def r5(ctx):
             st = n.stmt
             if n.kind == "stmt" and isinstance(st, ast.Assign) and any(isinstance(t, ast.Attribute) and U(t.value) == "self" for t in st.targets):
                 effects.append(n)
-            elif n.kind == "stmt" and isinstance(st, ast.Expr) and isinstance(st.value, ast.Call) and attr_tail(st.value) in ("_update", "update", "append", "extend"):
+            elif n.kind == "stmt" and isinstance(st, ast.Expr) and isinstance(st.value, ast.Call) and attr_tail(st.value) in ("_update", "update", "append", "extend") \
+                    and not isinstance(st.value.func.value, ast.Name):
                 effects.append(n)
             elif n.kind == "loop" and any(attr_tail(c) == "_update" for c in calls(st)):
                 effects.append(n)
